@@ -1,5 +1,5 @@
 (* Extraction of the template lexer engine (ExtrOcamlBasic only). *)
 Require Extraction.
 Require Import ExtrOcamlBasic.
-From Verif Require Import Bytes Utf8 LexBase LexCodeM LexerM LexTables LexPos CutM CutSpec RefTok.
-Extraction "lexer_model.ml" lex_case lex_devs pos_case cut_case tiles_case ctx_sim_case ctx_frag_case.
+From Verif Require Import Bytes Utf8 LexBase LexCodeM LexerM LexTables LexPos CutM CutSpec RefTok RefTok2.
+Extraction "lexer_model.ml" lex_case lexprog_case lex_devs pos_case posprog_case cut_case tiles_case ctx_sim_case ctx_frag_case ctx_sim2_case.
